@@ -88,6 +88,10 @@ def bits_mask(bits, grid):
     return flat.reshape(tuple(int(s) for s in grid.data_shape), order=grid.order)
 
 
+class Overwritten(Exception):
+    pass
+
+
 def run_regrid(adapter, gs, gt, smask, tmask, fields, dtype=float):
     """pushes each field (values per source location, data_points order); returns list of (flat values, flat mask) in target data_points order"""
     out = fm.Output("o", fm.Info(time=T0, grid=gs, units="m", mask=fm.Mask.NONE if smask is None else smask))
@@ -96,6 +100,7 @@ def run_regrid(adapter, gs, gt, smask, tmask, fields, dtype=float):
     inp.ping()
     inp.exchange_info()
     res = []
+    kept = []
     from datetime import timedelta
 
     for k, f in enumerate(fields):
@@ -105,7 +110,12 @@ def run_regrid(adapter, gs, gt, smask, tmask, fields, dtype=float):
         t = T0 + timedelta(hours=k)
         out.push_data(d, t)
         got = inp.pull_data(t).magnitude[0]
-        res.append((np.ma.getdata(got).ravel(order=gt.order), np.ma.getmaskarray(got).ravel(order=gt.order)))
+        kept.append((got, np.ma.getdata(got).copy(), np.ma.getmaskarray(got).copy()))
+        res.append((np.ma.getdata(got).ravel(order=gt.order).copy(), np.ma.getmaskarray(got).ravel(order=gt.order).copy()))
+    # history: a result handed out earlier must not change when later data is regridded
+    for k, (got, vals, msk) in enumerate(kept):
+        if not (np.array_equal(np.ma.getdata(got)[~msk], vals[~msk], equal_nan=got.dtype.kind == "f") and np.array_equal(np.ma.getmaskarray(got), msk)):
+            raise Overwritten(f"the array delivered by pull {k} of {len(kept)} changed after later pulls")
     return res
 
 
@@ -124,10 +134,14 @@ def check_nearest(case):
     else:
         ident = 1000.0 + np.arange(len(sp))
     try:
-        (vals, gmask), = run_regrid(fm.adapters.RegridNearest(), gs, gt, smask, tmask, [ident], dtype=np.int64 if case.get("int64") else float)
+        (vals, gmask), (vals2, gmask2) = run_regrid(fm.adapters.RegridNearest(), gs, gt, smask, tmask, [ident, ident[::-1] + 7], dtype=np.int64 if case.get("int64") else float)
     except Exception as e:  # noqa
-        return [("exception", f"{type(e).__name__}: {str(e)[:100]}")]
+        return [("earlier_result_overwritten" if isinstance(e, Overwritten) else "exception", f"{type(e).__name__}: {str(e)[:100]}")]
     bad = []
+    # the second data set (other values at every source) goes through the same adapter: same selection
+    sel_ok = np.array_equal(gmask, gmask2) and all(gmask[j] or tm[j] or vals2[j] == (ident[::-1] + 7)[int(vals[j] - ident[0])] for j in range(len(tp)) if ident[0] <= vals[j] < ident[0] + len(sp))
+    if not sel_ok:
+        bad.append(("second_data_set_regridded_differently", ""))
     for j, p in enumerate(tp):
         if tm[j]:
             if not gmask[j]:
@@ -176,9 +190,15 @@ def check_linear(case):
     if unit:
         fields += [np.eye(len(sp))[k] for k in range(len(sp))]
     try:
-        res = run_regrid(fm.adapters.RegridLinear(fill_with_nearest=fill), gs, gt, smask, None, fields)
+        if case.get("nan_first"):
+            # history: the first data set through the adapter has a NaN at one unmasked source location ("not known yet"); the later ones are judged
+            nf = np.ones(len(sp))
+            nf[int(np.argmin(np.linalg.norm(sp - sp[~sm].mean(axis=0), axis=1) + np.where(sm, np.inf, 0)))] = np.nan
+            res = run_regrid(fm.adapters.RegridLinear(fill_with_nearest=fill), gs, gt, smask, None, [nf] + fields)[1:]
+        else:
+            res = run_regrid(fm.adapters.RegridLinear(fill_with_nearest=fill), gs, gt, smask, None, fields)
     except Exception as e:  # noqa
-        return [("exception", f"{type(e).__name__}: {str(e)[:100]}")]
+        return [("earlier_result_overwritten" if isinstance(e, Overwritten) else "exception", f"{type(e).__name__}: {str(e)[:100]}")]
     simplex = hull.find_simplex(tp)
     # barycentric margin: exclude targets within 1e-9 of the hull boundary from the verdict
     bad = []
@@ -324,6 +344,12 @@ def items(tier):
         for bits in range(1, 63, 1 if not q else 4):
             for l1 in (L2 if not q else L2[::3]):
                 out.append(dict(kind="linear", src=dict(kind="uni2", lay=l1, loc="CELLS"), dst=dict(kind="uni2b", lay=tl[bits % len(tl)], loc="POINTS"), smask=bits, fill=fill))
+        # a first data set with a NaN at an unmasked interior source, then the clean fields
+        for uk, ul in (("tri", "POINTS"), ("pts", "POINTS"), ("mix", "CELLS")):
+            for l2 in L2[::5]:
+                out.append(dict(kind="linear", src=dict(kind=uk, loc=ul, lay=dict(order="F", rev=False, inc=[True, True])), dst=dict(kind="uni2b", lay=l2, loc="POINTS"), fill=fill, nan_first=True))
+        for bits in (1, 33, 2049):
+            out.append(dict(kind="linear", src=dict(kind="uni2", lay=L2[0], loc="POINTS"), dst=dict(kind="uni2b", lay=tl[0], loc="CELLS"), smask=bits, fill=fill, nan_first=True))
     return out
 
 
